@@ -14,7 +14,7 @@ PROPS = {"C11": dict(
     technique="differential testing against an independent parser+verifier, byte/field mutation, native fuzzing",
     budget={"quick": 600, "thorough": 2400},
     units=[
-        rapid("ctlog", "internal/ctlog", "^TestVerifC11SignTreeHead$", 3000, 8000),
-        rapid("ctlog", "internal/ctlog", "^TestVerifC11VerifierStrict$", 20000, 50000),
-        fuzz("ctlog", "internal/ctlog", "FuzzVerifC11RFC6962Verify", "120s"),
+        rapid("ctlog", "internal/ctlog", "^TestVerifC11SignTreeHead$", 3000, 5000),
+        rapid("ctlog", "internal/ctlog", "^TestVerifC11VerifierStrict$", 20000, 30000),
+        fuzz("ctlog", "internal/ctlog", "FuzzVerifC11RFC6962Verify", "90s"),
     ])}
